@@ -1,4 +1,5 @@
-(* Correspondence for C10: a case is an operation history over [c_nl] lists together with what the real
+(* Correspondence for C10: a case is a history (the twelve calls and iterations with scripted callbacks,
+   Model.call) over [c_nl] lists together with what the real
    ds.List (both flavours; they agreed in the harness, as did container/list) returned and showed after
    every call: per list Len/Front/Back/Values/reverse Values, per allocated handle Prev/Next/Value. *)
 From Coq Require Import ZArith List Bool Arith Uint63.
@@ -10,8 +11,9 @@ Open Scope Z_scope.
    a pointer is -1000000 for nil, n for El n, -(l+1) for Root l;
    per list: Len, Front, Back, |Values|, Values..., |reverse Values|, reverse Values...;
    then per allocated handle El 0 .. El (fresh-1): Prev, Next, Value.
-   s_out = None: the call panicked (then it is the last step and nothing else is compared);
-   s_hang: the thread-safe flavour did not return within the watchdog;
+   s_out = None: the call panicked (then it is the last step and nothing else is compared); for an iteration
+   s_out = CIter (the values handed to the callback, in order) (aborted with the callback's error?);
+   s_hang: the thread-safe flavour did not return within the watchdog (= the lock model says TBlocked);
    s_fp = true: s_flat holds only the two fingerprints [fp 1000003 17; fp 69069 23] of the flat list
    (Coq parses ~10^4 numerals per second, so most cases carry fingerprints and a share the full list) *)
 Record sobs := so { s_out : option cout; s_hang : bool; s_fp : bool; s_flat : list Z }.
